@@ -37,8 +37,8 @@ RULE = ("Hypothesis: real-basis expressions = 1-3 terms of rational "
         "once). Non-trivial: output differs from the input and holds >= 1 "
         "intermediate (factoring) / none (expansion, reduction); an order-2 "
         "or multi-term intermediate is involved.")
-BUDGET = {"quick": 75, "thorough": 2400}
-N_EXAMPLES = {"quick": 6, "thorough": 80}
+BUDGET = {"quick": 110, "thorough": 2400}
+N_EXAMPLES = {"quick": 9, "thorough": 80}
 CASE_TIMEOUT = {"quick": 30, "thorough": 600}
 ASSUMPTIONS = ["RuntimeError 'Ambiguous signs' raised by the fraction "
                "algebra's own validation is a refusal (as in C13)",
@@ -158,9 +158,15 @@ def st_num_case(draw):
     p = draw(st.sampled_from([1, 1, -1, 2, 3]))
     q_ = draw(st.sampled_from([1, 2, 4]))
     term = {"pref": [p, q_], "sqrt": 0, "syms": [], "objs": objs, "num": num}
+    req = draw(st.sampled_from(["reduce", "reduce", "factor_reduced",
+                                "factor_expanded"]))
+    if req == "factor_expanded":
+        # instead of a numerator: extra powers of the amplitude's own
+        # denominator bracket (V/D^2, V^2/D^3 ... after the expansion)
+        term["num"] = []
+        term["den"] = [[[i, j], [a, b], draw(st.sampled_from([1, 1, 2]))]]
     return {"terms": [term], "targets": sorted(targets),
-            "req": draw(st.sampled_from(["reduce", "reduce",
-                                         "factor_reduced"])),
+            "req": req,
             "itmds": draw(st.sampled_from([None, ["t2_1"], ["t_amplitude"]])),
             "max_order": None,
             "size": draw(st.sampled_from([[2, 2], [3, 2], [2, 3]])),
@@ -214,7 +220,7 @@ def st_pert_case(draw, tier):
                     "pert": [draw(st.integers(0, 11)),
                              draw(st.sampled_from([1, -1, 2, 3])),
                              draw(st.sampled_from([1, 1, 2]))],
-                    "itmds": draw(st.sampled_from([["t2_2"], ["t2_2"],
+                    "itmds": draw(st.sampled_from([["t2_2"], ["t2_1", "t2_2"],
                                                    ["t_amplitude"], None])),
                     "max_order": None,
                     "size": draw(st.sampled_from([[2, 2], [3, 2], [2, 3]])),
@@ -227,7 +233,7 @@ def st_pert_case(draw, tier):
     n_target = draw(st.integers(0, 4))
     t, tg = draw(st_term(n_target, tier, fixed_objs=objs))
     name = LONG_NAMES[(itm[0], len(itm[2]) if itm[0] == "t2" else itm[2][0])]
-    sel = draw(st.sampled_from([[name], [name], ["t2_1", name],
+    sel = draw(st.sampled_from([[name], ["t2_1", name], ["t2_1", name],
                                 ["t_amplitude", "mp_density"], None]))
     return {"terms": [t], "targets": sorted(tg), "req": "factor_perturbed",
             "pert": [draw(st.integers(0, 11)),
@@ -303,7 +309,7 @@ def st_case(draw, tier):
         return draw(st_multi_case(tier))
     if draw(st.integers(0, 5)) == 0:
         return draw(st_pass_case(tier))
-    if draw(st.integers(0, 4)) == 0:
+    if draw(st.integers(0, 3)) == 0:
         return draw(st_pert_case(tier))
     n_terms = draw(st.sampled_from([1, 1, 2, 3]))
     n_target = draw(st.integers(0, 2)) if n_terms == 1 else 0
@@ -409,6 +415,10 @@ def run_case(case):
     if any(b == 0 for b in built):
         raise BadCase("vanishing term")
     for k, t in enumerate(case["terms"]):
+        for occ_, virt_, ex_ in t.get("den", []):
+            br = Add(*[NonSymmetricTensor("e", (s_,)) for s_ in syms(virt_)]) \
+                - Add(*[NonSymmetricTensor("e", (s_,)) for s_ in syms(occ_)])
+            built[k] = built[k] / br**int(ex_)
         if t.get("num"):
             built[k] = built[k] * Add(*[
                 cf * NonSymmetricTensor("e", (s_,)) for (lbl, cf), s_ in
@@ -522,10 +532,29 @@ def run_case(case):
         r.cls("term_without_intermediate")
     if any(t.get("num") for t in case["terms"]):
         r.cls("orbital_energy_numerator")
+    if any(t.get("den") for t in case["terms"]):
+        r.cls("extra_denominator_power")
     return r
 
 
+# fixed mixed-prefactor cases: -2 t2^{gh}_{no} x_{mn} z_g z_m written out
+# (no symmetry left in the product), each of its six expanded terms in turn
+# with a deviating prefactor, t2_1 factored before t2_2 or not
+_PERT_BASE = {"terms": [{"pref": [2, 1], "sqrt": 0, "syms": [], "objs": [{"k": "T", "name": "t2", "u": ["g1", "h1"], "l": ["o1", "n1"], "bk": 0, "exp": 1}, {"k": "N", "name": "x", "u": ["m1", "n1"], "l": [], "bk": 0, "exp": 1}, {"k": "N", "name": "z", "u": ["m1"], "l": [], "bk": 0, "exp": 1}, {"k": "N", "name": "z", "u": ["g1"], "l": [], "bk": 0, "exp": 1}]}], "targets": ["h1", "o1"], "req": "factor_perturbed", "max_order": None, "size": [2, 3], "mseed": 77}
+
+
+def fixed_cases():
+    out = []
+    for k in range(6):
+        for sel in (["t2_1", "t2_2"], ["t_amplitude", "mp_density"],
+                    ["t2_2"]):
+            out.append(dict(_PERT_BASE, pert=[k, 3, 2], itmds=sel))
+    return out
+
+
 def run_shard(col, shard, nshards, seed, tier):
+    for case in fixed_cases()[shard::nshards]:
+        col.run(case, run_case)
     drive(strategy(tier), run_case, N_EXAMPLES[tier], seed * 1000 + shard,
           col)
 
